@@ -10,10 +10,10 @@ TRUST = ("Trusted: go/packages+go/types+go/ssa (x/tools v0.50.0) translate the s
 
 claims = {
  "C01": dict(level="proof",
-   text=("Contracts on the real code: Action.Action, ToSeccompAction (total map, unset/unknown fails closed to KILL_PROCESS), sockFilter (lossless copy, quantified loop invariant), "
+   text=("Contracts on the real code: cleanTrace, Action.Action, ToSeccompAction (total map, unset/unknown fails closed to KILL_PROCESS), sockFilter (lossless copy, quantified loop invariant), "
          "ExportBPF, Builder.Build (call-site obligation: the Policy handed to go-seccomp-bpf has exactly the translated default action, group 0 = ALLOW for Allow, group 1 = TRACE for Trace), "
          "package initialiser (actTrace constant). All obligations discharged by SMT for all inputs."),
-   note=TRUST + "ToSeccompAction also carries C03 (a filter kill must be KILL_PROCESS so that it ends the run). ASSUMED, not verified: go-seccomp-bpf Policy.Assemble compiles the policy correctly and x/net/bpf.Assemble is lossless (dependency code; the cBPF program itself is not interpreted yet); cmd/runprog config.cleanTrace is not under contract yet.",
+   note=TRUST + "ToSeccompAction also carries C03 (a filter kill must be KILL_PROCESS so that it ends the run). ASSUMED, not verified: go-seccomp-bpf Policy.Assemble compiles the policy correctly and x/net/bpf.Assemble is lossless (dependency code; the cBPF program itself is not interpreted yet); cmd/runprog config.cleanTrace is under contract (the allow and trace lists handed to the builder are disjoint, every traced name stays traced, nothing is allowed that was not asked for; keySetToSlice trusted: range over a map).",
    design_ref="DESIGN.md §4 C01"),
  "C02": dict(level="proof",
    text=("Proof part (all register values, all syscall numbers): runner/ptrace tracerHandler.Handle against a decode table taken from the system call signatures - for each of the 35 path-taking calls it decodes, exactly one policy query (two for rename/renameat/renameat2/linkat) is logged in ghost Q with the access class of the call "
@@ -42,7 +42,7 @@ claims = {
  "C06": dict(level="proof",
    text=("Descriptor shuffle of forkAndExecInChild proved with quantified loop invariants over the ghost descriptor table for all lists (length, order, repeats, close markers, overlaps with the scratch area and with the sync/exec descriptors): "
          "at exec slot k holds the caller's k-th file with CLOEXEC clear (or is closed for a marker), every descriptor >= len is CLOEXEC; frame: no store to caller-visible memory (found and fixed: Runner.ExecFile write-back); prepareFds."),
-   note=TRUST + "A-FD: every descriptor open in the launching process is CLOEXEC (container init: closeOnExecAllFds, not under contract yet); listed descriptors differ from the fresh socketpair.",
+   note=TRUST + "A-FD: every descriptor open in the launching process is CLOEXEC. For the container init this is discharged in part: closeOnExecAllFds marks every entry of the /proc/self/fd listing close-on-exec, stdio included (loop invariant over the listing), and handleExecve marks the received descriptors (closeOnExecFds); that the listing is complete and that Go's runtime opens its own descriptors CLOEXEC is assumed. Listed descriptors differ from the fresh socketpair.",
    design_ref="DESIGN.md §4 C06"),
  "C07": dict(level="proof",
    text=("Child side of the sync gate (forkAndExecInChild, model K): exec is reachable with a sync callback configured only after the ready word was written to and the ack read from the sync socket (same open file), in that order; "
